@@ -32,7 +32,10 @@ type EvalCtx struct {
 	pkg    *types.Package
 	names  map[string]EV
 	lookup func(name string) (EV, bool)
+	lookupAddr func(name string) (*PtrV, bool) // address of a local variable kept in memory (loop contexts)
+	lookupOuter func(name string) (EV, bool)   // the enclosing loop's variable of that name
 	prove  bool // true: goal position (forall skolemised); false: assumption (real quantifier)
+	bvars  []*Term // bound variables of the enclosing real quantifiers (skolem terms must depend on them)
 	depth  int
 }
 
@@ -273,9 +276,20 @@ func (c *EvalCtx) Eval(e *Expr) EV {
 		skolem := (isForall && c.prove) || (!isForall && !c.prove)
 		var kv *Term
 		if skolem {
-			kv = tb.Fresh(e.Var+"!sk", BV(64))
+			if len(c.bvars) > 0 {
+				// under a real quantifier: skolem FUNCTION of the enclosing bound variables
+				var sorts []Sort
+				for _, b := range c.bvars {
+					sorts = append(sorts, b.sort)
+				}
+				f := tb.DeclareFun(tb.Fresh(e.Var+"!skf", SBool).name, sorts, BV(64))
+				kv = tb.App(f, c.bvars...)
+			} else {
+				kv = tb.Fresh(e.Var+"!sk", BV(64))
+			}
 		} else {
 			kv = tb.BoundVar(e.Var, BV(64))
+			nc.bvars = append(append([]*Term(nil), c.bvars...), kv)
 		}
 		nc.names[e.Var] = EV{V: kv, T: tInt}
 		rng := tb.And(tb.BVCmp("bvsle", lo, kv), tb.BVCmp("bvslt", kv, hi))
@@ -815,6 +829,14 @@ func (c *EvalCtx) call(e *Expr) EV {
 				nc.cur = c.st
 			}
 			return nc.Eval(args[0])
+		case "outer":
+			if c.lookupOuter == nil || args[0].Op != "ident" {
+				specFail("outer(name) is only available in loop invariants")
+			}
+			if v, ok := c.lookupOuter(args[0].Name); ok {
+				return v
+			}
+			specFail("outer(%s): no enclosing definition", args[0].Name)
 		case "now":
 			// inside old(...): evaluate a sub-expression in the current state
 			if c.cur == nil {
@@ -1130,6 +1152,14 @@ func indexOffsets(body *Expr, v string) []*Expr {
 // evalLoc evaluates an expression to the LOCATION it denotes (pointer), e.g. m.received -> &m.received.
 func (c *EvalCtx) evalLoc(e *Expr) *PtrV {
 	switch e.Op {
+	case "ident":
+		if c.lookupAddr != nil {
+			if _, shadow := c.names[e.Name]; !shadow {
+				if p, ok := c.lookupAddr(e.Name); ok {
+					return p
+				}
+			}
+		}
 	case "sel":
 		var base *PtrV
 		if bv, ok := c.tryEvalPtr(e.Args[0]); ok {
